@@ -328,13 +328,13 @@ func (w *world) checkViews(t *rapid.T, n *node, after string) {
 			if bu(bps[i].cc).Cmp(coins) != 0 {
 				fail("confirmed coins of %s: node %d, model %s", a, bps[i].cc, coins)
 			}
-			if len(byAddr[a]) > 0 && pcoins.Cmp(two64) < 0 && bu(bps[i].pc).Cmp(pcoins) != 0 {
+			if pcoins.Cmp(two64) < 0 && bu(bps[i].pc).Cmp(pcoins) != 0 {
 				fail("predicted coins of %s: node %d, model %s (pool %d txns)", a, bps[i].pc, pcoins, len(m.Pool))
 			}
 			if hoursKnown && hours.Cmp(two64) < 0 && bu(bps[i].ch).Cmp(hours) != 0 {
 				fail("confirmed hours of %s: node %d, model %s", a, bps[i].ch, hours)
 			}
-			if hoursKnown && len(byAddr[a]) > 0 && phours.Cmp(two64) < 0 && bu(bps[i].ph).Cmp(phours) != 0 {
+			if hoursKnown && phours.Cmp(two64) < 0 && bu(bps[i].ph).Cmp(phours) != 0 {
 				fail("predicted hours of %s: node %d, model %s", a, bps[i].ph, phours)
 			}
 		}
